@@ -25,7 +25,7 @@ vlib.BUILD_FLAVOURS.setdefault("asan19", (
     "-fsanitize=address,undefined"))
 
 SAN_ENV = {
-    "ASAN_OPTIONS": "detect_leaks=0:abort_on_error=0:exitcode=99:allocator_may_return_null=1:detect_stack_use_after_return=0",
+    "ASAN_OPTIONS": "detect_leaks=0:abort_on_error=0:exitcode=99:allocator_may_return_null=1:detect_stack_use_after_return=0:handle_abort=1",
     "UBSAN_OPTIONS": "print_stacktrace=1:halt_on_error=1:exitcode=98",
 }
 
@@ -78,6 +78,7 @@ _UBSAN = [
     ("execution reached an unreachable", "unreachable"),
 ]
 _SIGNAMES = {int(getattr(signal, n)): n for n in dir(signal) if n.startswith("SIG") and not n.startswith("SIG_")}
+_SIGNAMES[6] = "SIGABRT"
 
 
 def top_frame(err):
@@ -87,8 +88,26 @@ def top_frame(err):
     return "?"
 
 
+_PLUMBING = {"scan.c", "pp.c", "util.c", "map.c", "token.c"}
+
+
+def hang_frame(err):
+    """Stack printed by ASan's SIGABRT handler after a timeout: the innermost frame outside the token plumbing."""
+    frames = [(m.group(2), m.group(1)) for m in _FRAME.finditer(err) if m.group(2) in repo_srcs()]
+    for f, fn in frames:
+        # token plumbing and the leaf printers of qbe.c have no loop of their own that could spin: blame their caller
+        if f not in _PLUMBING and not re.match(r"emit(?!func$|data$|tentativedefns$)", fn):
+            return "%s:%s" % (f, fn)
+    return "%s:%s" % frames[0] if frames else "?"
+
+
 def crash_signature(rc, err):
     """None if the run ended like the property demands (status 0/1/2, no sanitizer report)."""
+    if rc == -999:
+        return "hang:" + hang_frame(err)
+    m = re.search(r"(\w+\.c):\d+: (?:[^\n:]*?[ *])?(\w+)(?:\([^\n]*)?: Assertion `([^\n]*)' failed", err)
+    if m:
+        return "assert:%s:%s:%s" % (m.group(1), m.group(2), re.sub(r"[^A-Za-z0-9]+", "-", m.group(3)).strip("-")[:40])
     if "runtime error:" in err:
         msg = err[err.index("runtime error:") + 14:].split("\n", 1)[0]
         kind = next((k for pat, k in _UBSAN if pat in msg), None)
@@ -102,11 +121,6 @@ def crash_signature(rc, err):
         if "freed by thread" in err:     # use-after-free / double free: the root cause is the free site
             sig += ":freed=" + top_frame(err[err.index("freed by thread"):])
         return sig
-    m = re.search(r"(\w+\.c):\d+: (?:[^\n:]*?[ *])?(\w+)\([^\n]*: Assertion `", err)
-    if m:
-        return "assert:%s:%s" % (m.group(1), m.group(2))
-    if rc == -999:
-        return "timeout"
     if rc < 0:
         return "crash:%s" % _SIGNAMES.get(-rc, "SIG%d" % -rc)
     if rc not in (0, 1, 2):
@@ -116,9 +130,19 @@ def crash_signature(rc, err):
 
 class Bins:
     def __init__(self, ctx):
-        self.asan = os.path.join(vlib.build("asan"), "cproc-qbe")
-        self.plain = os.path.join(vlib.build("plain"), "cproc-qbe")
-        self.san = os.path.join(vlib.build("asan19"), "cproc-qbe")
+        # private copies: the shared build cache evicts a flavour when /repo changes (other checks add hooks while we run)
+        import shutil
+        for name, flavour in (("asan", "asan"), ("plain", "plain"), ("san", "asan19")):
+            dst = ctx.path("cproc-qbe." + name)
+            for attempt in range(3):
+                try:
+                    shutil.copy2(os.path.join(vlib.build(flavour), "cproc-qbe"), dst)
+                    break
+                except OSError:
+                    if attempt == 2:
+                        raise vlib.MachineryError("build of flavour %s vanished while copying" % flavour)
+                    time.sleep(1)
+            setattr(self, name, dst)
         self.failwrite = ctx.path("failwrite")
         p = subprocess.run(["gcc", "-O1", "-Wall", "-o", self.failwrite, os.path.join(HARN, "failwrite.c")],
                            stdout=subprocess.PIPE, stderr=subprocess.STDOUT, text=True)
@@ -127,8 +151,21 @@ class Bins:
 
 
 def run_cc(exe, data=None, args=(), timeout=10, cwd=None):
-    """Run the compiler proper on bytes given on stdin. Returns (rc, stdout bytes, stderr str)."""
-    rc, out, err = vlib.run([exe] + list(args), stdin=data if data is not None else b"", timeout=timeout, env=base_env(), cwd=cwd)
+    """Run the compiler proper on bytes given on stdin. Returns (rc, stdout bytes, stderr str); rc = -999 on timeout,
+    in which case the process gets SIGABRT first so that the sanitizer runtime prints where it was."""
+    # stdout is not observed here (a cyclic block list makes emitfunc print forever: never buffer it)
+    p = subprocess.Popen([exe] + list(args), stdin=subprocess.PIPE, stdout=subprocess.DEVNULL, stderr=subprocess.PIPE, env=base_env(), cwd=cwd)
+    try:
+        out, err = p.communicate(data if data is not None else b"", timeout=timeout)
+        rc = p.returncode
+    except subprocess.TimeoutExpired:
+        p.send_signal(signal.SIGABRT)
+        try:
+            out, err = p.communicate(timeout=5)
+        except subprocess.TimeoutExpired:
+            p.kill()
+            out, err = p.communicate()
+        rc = -999
     return rc, out, err.decode("utf-8", "replace")
 
 
@@ -379,10 +416,34 @@ def variants_of(scn):
     return [""]
 
 
-def part_proc(ctx, bins):
-    spec = ctx.tlc_must_pass("Proc", "MC_Proc_spec.cfg", workers=4, coverage=True, timeout=600)
+class Models:
+    """All TLC runs of the check, started together (JVM start-up dominates the small models)."""
+
+    def __init__(self, ctx):
+        from concurrent.futures import ThreadPoolExecutor
+        tier = "quick" if ctx.quick else "thorough"
+        self.ex = ThreadPoolExecutor(max_workers=4)
+        must = ctx.tlc_must_pass
+        self.f = {
+            "proc_spec": self.ex.submit(must, "Proc", "MC_Proc_spec_%s.cfg" % tier, workers=2, coverage=True, timeout=900),
+            "proc_impl": self.ex.submit(must, "Proc", "MC_Proc_impl_%s.cfg" % tier, workers=2, timeout=900),
+            "skip_spec": self.ex.submit(must, "Skip", "MC_Skip_spec_%s.cfg" % tier, workers=4, coverage=ctx.quick, timeout=1500),
+            "skip_impl": self.ex.submit(must, "Skip", "MC_Skip_impl_%s.cfg" % tier, workers=4, timeout=1500),
+            "skip_live": self.ex.submit(ctx.tlc, "Skip", "MC_Skip_live.cfg", workers=1, timeout=600),
+            "bounds": self.ex.submit(must, "Bounds", "MC_Bounds_%s.cfg" % tier, workers=2, coverage=ctx.quick, timeout=1500),
+        }
+
+    def get(self, name):
+        return self.f[name].result()
+
+    def close(self):
+        self.ex.shutdown(wait=True)
+
+
+def part_proc(ctx, bins, models):
+    spec = models.get("proc_spec")
     ctx.check_coverage(spec)
-    impl = ctx.tlc_must_pass("Proc", "MC_Proc_impl.cfg", workers=4, timeout=600)
+    impl = models.get("proc_impl")
     want = {scn_key(json.loads(v)["scn"]): json.loads(v) for v in spec.vcases}
     have = {scn_key(json.loads(v)["scn"]): json.loads(v) for v in impl.vcases}
     if set(want) != set(have) or len(want) != len(spec.vcases):
@@ -444,7 +505,7 @@ def part_proc(ctx, bins):
         nrun += 1
         nontrivial = scn["sink"] != "good" or scn["ink"] not in ("stdin", "file") or scn["args"] != "ok" or scn["outk"] == "obad"
         ctx.count("proc/%s/%s/%s" % (key, variant, mode), nontrivial=nontrivial)
-        case = {"scenario": scn, "variant": variant, "mode": mode}
+        case = {"part": "proc", "scenario": scn, "variant": variant, "mode": mode, "spec_state": e, "impl_state": im}
         for build, obs, sig, r in res:
             if sig is not None:
                 ctx.violation("%s" % sig, "sanitizer report / abnormal end in an exit-protocol scenario",
@@ -483,7 +544,7 @@ def observe(exe, data, args=(), timeout=None):
     sig = crash_signature(rc, err)
     if sig is None:
         return rc, None, err
-    if sig == "timeout":
+    if sig.startswith("hang:"):
         return "hang", sig, err
     return "crash", sig, err
 
@@ -514,13 +575,12 @@ def audit_class(data, cls_ok):
 # ==================================================================================================
 # (3) Skip.tla
 # ==================================================================================================
-def part_skip(ctx, bins):
-    tier = "quick" if ctx.quick else "thorough"
-    spec = ctx.tlc_must_pass("Skip", "MC_Skip_spec_%s.cfg" % tier, workers=8, coverage=ctx.quick, timeout=900)
+def part_skip(ctx, bins, models):
+    spec = models.get("skip_spec")
     if ctx.quick:
         ctx.check_coverage(spec)
-    impl = ctx.tlc_must_pass("Skip", "MC_Skip_impl_%s.cfg" % tier, workers=8, timeout=900)
-    live = ctx.tlc("Skip", "MC_Skip_live.cfg", workers=2, timeout=300)
+    impl = models.get("skip_impl")
+    live = models.get("skip_live")
     if live.rc != 13 or "Stuttering" not in live.out:
         raise vlib.MachineryError("Skip.tla: with the deviation on TLC must report the non-terminating attribute loop (rc=%s)" % live.rc)
     want = {}
@@ -567,7 +627,7 @@ def part_skip(ctx, bins):
             raise vlib.MachineryError("SPEC-AUDIT Skip.tla: %s: %r" % (audit, text))
         n += 1
         ctx.count("skip/%s/%s/%d" % (key[0], "".join(key[1]), cut), nontrivial=c["shape"] != "closedend" or cut < len(c["tail"]))
-        case = {"loop": key[0], "stream": list(key[1]), "cut": cut, "source": text.decode(), "class": cls, "shape": c["shape"]}
+        case = {"part": "skip", "loop": key[0], "stream": list(key[1]), "cut": cut, "source": text.decode(), "class": cls, "shape": c["shape"]}
         if obs == "crash":
             ctx.violation(sig, "sanitizer report / abnormal end on a Skip.tla stream", dict(case, stderr=err[-1500:]))
             continue
@@ -576,7 +636,7 @@ def part_skip(ctx, bins):
             if key in hang:
                 ctx.violation("skip:parseattr-eof", "attribute argument skipping never terminates when the input ends first", case)
             else:
-                ctx.violation("skip:hang:%s:%s" % (key[0], c["shape"]), "loop does not terminate within the time limit", case)
+                ctx.violation("skip:%s:%s:%s" % (sig, key[0], c["shape"]), "loop does not terminate within the time limit", case)
         elif got not in ("ok", "diag") or (cls != "any" and got != cls):
             ctx.violation("skip:%s:%s:want=%s:got=%s" % (key[0], c["shape"], cls, got), "outcome class differs from Skip.tla", dict(case, stderr=err[-400:]))
     ctx.validated(n)
@@ -686,8 +746,8 @@ DEPTH_FAMS = {"parens", "blocks", "declparens", "pointers", "unaryneg", "dims", 
               "lognot", "subscripts", "calls", "ifnest"}
 
 
-def part_bounds(ctx, bins):
-    r = ctx.tlc_must_pass("Bounds", "MC_Bounds_%s.cfg" % ("quick" if ctx.quick else "thorough"), workers=8, coverage=ctx.quick, timeout=900)
+def part_bounds(ctx, bins, models):
+    r = models.get("bounds")
     if ctx.quick:
         ctx.check_coverage(r)
     if len(r.vcases) != 1:
@@ -715,10 +775,10 @@ def part_bounds(ctx, bins):
             raise vlib.MachineryError("SPEC-AUDIT Bounds.tla: %s(%d) class %d: %s" % (c["fam"], c["n"], c["class"], audit))
         n += 1
         ctx.count("bounds/%s/%d" % (c["fam"], c["n"]), nontrivial=True)
-        case = {"family": c["fam"], "n": c["n"], "class": c["class"], "args": args, "build": "plain" if deep else "asan+ubsan",
+        case = {"part": "bounds", "family": c["fam"], "n": c["n"], "class": c["class"], "held": c["held"], "args": args, "build": "plain" if deep else "asan+ubsan",
                 "source": data[:300].decode() + ("..." if len(data) > 300 else "")}
         if obs in ("crash", "hang"):
-            ctx.violation(sig if obs == "crash" else "bounds:hang:%s" % c["fam"], "sanitizer report / abnormal end / timeout on a boundary input of Bounds.tla",
+            ctx.violation(sig, "sanitizer report / abnormal end / timeout on a boundary input of Bounds.tla",
                           dict(case, stderr=err[-1500:]))
             continue
         if c["class"] != 2 and obs != c["class"]:
@@ -737,12 +797,225 @@ def part_bounds(ctx, bins):
 
 
 # ==================================================================================================
+# (4) observation at volume (not decided by a model)
+# ==================================================================================================
+# failing inputs of DESIGN.md §8 marked C19 and crashes reported by other checks (C02 pool, C05), reduced
+SEEDS = [
+    ("div-zero", b"int x = 1/0;\n", []),
+    ("mod-zero", b"int x = 5 % 0;\n", []),
+    ("llong-min-div", b"long long y = (-9223372036854775807LL - 1) / -1;\n", []),
+    ("llong-min-mod", b"long long y = (-9223372036854775807LL - 1) % -1;\n", []),
+    ("unevaluated-div", b"int x = 1 || (1 / 0);\n", []),
+    ("nan-to-int", b"int x = (int)(0.0 / 0.0);\n", []),
+    ("anon-member-designator", b"struct A { struct { int q; char r; }; int t; }; struct A o = {.q = 1, 2, 3};\n", []),
+    ("union-reinit", b"union U { int a; struct { short p; char c; int a; } p; }; union U obj = {70000, .p = {1000, 1, .a = 5}};\n", []),
+    ("keyword-macro-twice", b"#define T int\nT a; T b;\n", []),
+    ("undef-during-args", b"#define f(x) x\nf(\n#undef f\n1)\n", ["-E"]),
+    ("types-compatible-novoid", b"int v = __builtin_types_compatible_p(int, 1);\n", []),
+]
+
+
+def byte_mutants(ctx, files, n):
+    vals = [0, 255, 0x80, 0xC0, ord('"'), ord("'"), ord("\\"), ord("("), ord(")"), ord("{"), ord("}"), ord("["), ord("#"), ord("\n"), ord("/"), ord("*")]
+    out = []
+    for i in range(n):
+        p, targ, mode = files[ctx.rng.randrange(len(files))]
+        b = bytearray(open(p, "rb").read())
+        if not b:
+            continue
+        k = ctx.rng.choice(["set", "del", "ins", "dup"])
+        q = ctx.rng.randrange(len(b))
+        v = ctx.rng.choice(vals) if ctx.rng.random() < 0.7 else ctx.rng.randrange(256)
+        if k == "set":
+            b[q] = v
+        elif k == "del":
+            del b[q]
+        elif k == "ins":
+            b.insert(q, v)
+        else:
+            b[q:q] = b[q:q + ctx.rng.randrange(1, 9)]
+        out.append((bytes(b), targ, mode, {"file": os.path.basename(p), "byte": k, "at": q, "val": v}))
+    return out
+
+
+def truncations(files, stride, phase):
+    import mutate
+    out, j = [], 0
+    for p, targ, mode in files:
+        text = open(p, errors="surrogateescape").read()
+        toks = mutate.tokenize(text)
+        pos = 0
+        for t in toks:
+            pos += len(t)
+            if t.isspace():
+                continue
+            j += 1
+            if j % stride == phase % stride:
+                out.append((text[:pos].encode("utf-8", "surrogateescape"), targ, mode, {"file": os.path.basename(p), "truncate_after_byte": pos}))
+    return out
+
+
+def part_volume(ctx, bins):
+    import mutate
+    files = mutate.corpus()
+    q = ctx.quick
+    inputs = []          # (bytes, target, mode, descr, origin)
+    for name, src, args in SEEDS:
+        inputs.append((src, "x86_64-sysv", "E" if "-E" in args else "c", {"seed": name}, "seed"))
+    for p, targ, mode in files:
+        inputs.append((open(p, "rb").read(), targ, mode, {"file": os.path.basename(p)}, "corpus"))
+    for src, targ, mode, d in mutate.generate(ctx, 1500 if q else 45000, 2):
+        inputs.append((src.encode("utf-8", "surrogateescape"), targ, mode, d, "MutateTok"))
+    for src, targ, mode, d in byte_mutants(ctx, files, 800 if q else 25000):
+        inputs.append((src, targ, mode, d, "MutateByte"))
+    for src, targ, mode, d in truncations(files, 4 if q else 1, ctx.seed):
+        inputs.append((src, targ, mode, d, "Truncate"))
+    # -E and compile mode are different code paths: corpus-derived inputs run in the mode the corpus file is tested in,
+    # and a fifth of them also in the other one
+    jobs = []
+    for i, (src, targ, mode, d, origin) in enumerate(inputs):
+        jobs.append((src, targ, mode, d, origin))
+        if origin != "seed" and i % 5 == 0:
+            jobs.append((src, targ, "c" if mode == "E" else "E", d, origin))
+
+    def one(job):
+        src, targ, mode, d, origin = job
+        args = ["-t", targ] + (["-E"] if mode == "E" else [])
+        obs, sig, err = observe(bins.san, src, args)
+        return obs, sig, err
+
+    res = vlib.pmap(one, jobs, workers=16)
+    by_origin = collections.Counter()
+    sigs = collections.Counter()
+    # how the §8 inputs end on the plain build (what a user sees: the terminating signal)
+    for name, src, args in SEEDS:
+        rc, out, err = run_cc(bins.plain, src, args)
+        sig = crash_signature(rc, err)
+        by_origin["seed/plain"] += 1
+        ctx.count("plain-seed/" + name, nontrivial=True)
+        if sig is not None:
+            key = sig + ":seed=" + name if sig.startswith("crash:") else sig
+            sigs[key] += 1
+            ctx.violation(key, "abnormal end of the plain build on a known failing input", {"part": "volume", "origin": "seed/plain", "descr": {"seed": name},
+                          "target": "x86_64-sysv", "mode": "E" if "-E" in args else "c", "source": src.decode(), "stderr": err[-600:]})
+    for (src, targ, mode, d, origin), (obs, sig, err) in zip(jobs, res):
+        by_origin[origin] += 1
+        ctx.count(vlib.sha(src) + mode + targ, nontrivial=origin != "corpus")
+        if obs in (0, 1):
+            continue
+        key = sig if obs in ("crash", "hang") else "exit:%s" % obs
+        sigs[key] += 1
+        ctx.violation(key, "sanitizer report / abnormal end / timeout on a %s input" % origin,
+                      {"part": "volume", "origin": origin, "descr": d, "target": targ, "mode": mode, "source": src.decode("utf-8", "surrogateescape"), "stderr": err[-2500:]})
+    # the check the volume target leaves out: pointer-overflow ("applying zero offset to null pointer") on the unmutated corpus
+    full = os.path.join(vlib.build("asan"), "cproc-qbe")
+
+    def one_full(f):
+        p, targ, mode = f
+        src = open(p, "rb").read()
+        return observe(full, src, ["-t", targ] + (["-E"] if mode == "E" else []))
+    for (p, targ, mode), (obs, sig, err) in zip(files, vlib.pmap(one_full, files, workers=16)):
+        by_origin["corpus/full-ubsan"] += 1
+        ctx.count("full/" + p, nontrivial=False)
+        if obs not in (0, 1):
+            sigs[sig] += 1
+            ctx.violation(sig or "exit:%s" % obs, "sanitizer report on an unmutated regression test", {"file": os.path.basename(p), "target": targ, "mode": mode, "stderr": err[-2500:]})
+    # valgrind memcheck on the plain build for a sample (uninitialised reads are invisible to ASan/UBSan)
+    vg = [j for i, j in enumerate(jobs) if j[4] != "seed" and i % (150 if q else 300) == 7][: 40 if q else 400]
+
+    def one_vg(job):
+        src, targ, mode, d, origin = job
+        cmd = ["valgrind", "-q", "--error-exitcode=97", "--track-origins=no", bins.plain, "-t", targ] + (["-E"] if mode == "E" else [])
+        rc, out, err = vlib.run(cmd, stdin=src, timeout=120, env=base_env())
+        return rc, err.decode("utf-8", "replace")
+    for job, (rc, err) in zip(vg, vlib.pmap(one_vg, vg, workers=16)):
+        by_origin["valgrind"] += 1
+        ctx.count("vg/" + vlib.sha(job[0]), nontrivial=False)
+        if rc == 127 or "valgrind:" in err.split("\n", 1)[0]:
+            raise vlib.MachineryError("valgrind did not start: " + err[:300])
+        # invalid accesses and aborts of the same inputs are reported by the sanitized run above; memcheck is here for
+        # what the sanitizers cannot see: use of uninitialised values
+        m = re.search(r"==\d+== ((?:Conditional jump|Use of uninitialised|Syscall param)[^\n]*)\n(?:==\d+==\s+(?:at|by) [^\n]*\n)*?==\d+==\s+(?:at|by) 0x[0-9A-F]+: (\w+) \((\w+\.c):\d+\)", err)
+        if not m:
+            continue
+        key = "valgrind:uninitialised:%s:%s" % (m.group(3), m.group(2))
+        sigs[key] += 1
+        ctx.violation(key, "valgrind memcheck report / abnormal end on the plain build",
+                      {"origin": job[4], "descr": job[3], "target": job[1], "mode": job[2], "source": job[0].decode("utf-8", "surrogateescape"), "stderr": err[-2500:]})
+    ctx.cov["volume"] = {"inputs_by_origin": dict(by_origin), "abnormal_by_signature": dict(sigs)}
+    ctx.sample({"part": "volume", "example": jobs[len(jobs) // 2][3]})
+
+
+# ==================================================================================================
 def run(ctx):
     ctx.level = "fault_enumeration"
     bins = Bins(ctx)
     ctx.cov["rule"] = ("(1) every scenario of Proc.tla (argv class x output kind x sink/fault schedule x input kind x program class x "
                        "output size around multiples of the stdio buffer) rendered to a real invocation; non-trivial = a fault, an "
                        "error path or a non-default descriptor is involved.")
-    part_proc(ctx, bins)
-    part_skip(ctx, bins)
-    part_bounds(ctx, bins)
+    models = Models(ctx)
+    try:
+        t0 = time.time()
+        part_proc(ctx, bins, models)
+        t1 = time.time()
+        part_skip(ctx, bins, models)
+        t2 = time.time()
+        part_bounds(ctx, bins, models)
+        t3 = time.time()
+        part_volume(ctx, bins)
+        ctx.cov["part_wall_s"] = {"proc": round(t1 - t0, 1), "skip": round(t2 - t1, 1), "bounds": round(t3 - t2, 1), "volume": round(time.time() - t3, 1)}
+    finally:
+        models.close()
+
+
+def replay(ctx, path):
+    """Re-run exactly the stored case; prints what the specification demands and what the binary does now.
+    Exit 1 if the stored violation key reproduces, 0 if not."""
+    rec = json.load(open(path))
+    case, key = rec["case"], rec["key"]
+    bins = Bins(ctx)
+    part = case.get("part")
+    print("replay %s  key=%s" % (path, key))
+    if part == "proc":
+        e, im, scn = case["spec_state"], case["impl_state"], case["scenario"]
+        got_key = None
+        for build, exe in (("asan", bins.asan), ("plain", bins.plain)):
+            r = render_proc(ctx, bins, scn, case["variant"], case["mode"], exe, 0)
+            short = None
+            if scn["sink"] == "shortk":
+                ew, _ = expected_wlog(e)
+                short = (scn["k"], ew[scn["k"] - 1][1]) if scn["k"] <= len(ew) and ew[scn["k"] - 1][1] != ew[scn["k"] - 1][0] else (scn["k"], 1 << 30)
+            obs = exec_proc(r, short)
+            sig = crash_signature(obs["status"], obs["stderr"])
+            print(" build=%s argv=%s fault=%s" % (build, r["argv"][1:], r["fw"][3:]))
+            print("  specified: exit=%s write log (model units)=%s accepted=%s" % (e["exit"], e["wlog"], e["accepted"]))
+            print("  observed : status=%s write log (bytes)=%s stderr=%r" % (obs["status"], obs["wlog"][:10], obs["stderr"][-300:]))
+            if sig:
+                got_key = got_key or sig
+                continue
+            why = proc_matches(e, obs, r["text"] if scn["ink"] == "readerr" else None, case["variant"] != "closed")
+            if why and not got_key:
+                got_key = "io:read-error-as-eof" if im["dev"] and proc_matches(im, obs, None, case["variant"] != "closed") is None else "proc:" + why
+            break
+        print(" -> %s" % (got_key or "conforms"))
+        return 1 if got_key and (got_key == key or key.startswith("proc:") and got_key.startswith("proc:")) else 0
+    if part == "bounds":
+        src, args = render_bound(case["family"], case["n"])
+        data, want = src.encode(), {0: "status 0", 1: "status 1", 2: "status 0 or 1"}[case["class"]]
+        exe = bins.plain if case["build"] == "plain" else bins.san
+    elif part == "skip":
+        data, args, want, exe = case["source"].encode(), [], {"ok": "status 0", "diag": "status 1", "any": "status 0 or 1"}[case["class"]], bins.san
+    else:
+        data = case["source"].encode("utf-8", "surrogateescape")
+        args = ["-t", case.get("target", "x86_64-sysv")] + (["-E"] if case.get("mode") == "E" else [])
+        want, exe = "status 0 or 1, no sanitizer report", bins.san
+        if key.startswith("ubsan:null-plus-zero"):
+            exe = os.path.join(vlib.build("asan"), "cproc-qbe")
+    obs, sig, err = observe(exe, data, args)
+    print(" specified: %s, termination within %d s" % (want, allowance(len(data))))
+    print(" observed : %s %s" % (obs, sig or ""))
+    print(" stderr   : %s" % err[-1200:])
+    again = sig == key or (sig is None and key.startswith(("skip:", "bounds:")) and not want.endswith({0: "0", 1: "1"}.get(obs, "?")) and "or" not in want)
+    if key == "skip:parseattr-eof" and obs == "hang":
+        again = True
+    return 1 if again else 0
